@@ -6,7 +6,11 @@
 (* watching inner source (Mode = "direct").  SetSource holds the Blank's    *)
 (* mutex across Value + BlockingReportNewValue + Watch, so operations are   *)
 (* atomic at this level; the interleavings of the reports themselves are    *)
-(* the subject of Dials.tla.                                                *)
+(* the subject of Dials.tla.  That atomicity is itself checked: with        *)
+(* Overlap = TRUE a SetSource may carry ovl = TRUE, "issued while the       *)
+(* previous SetSource was still inside its source's Value()"; the model     *)
+(* still predicts the sequential outcome (the first call holds the mutex),  *)
+(* the driver really overlaps the two calls.                                *)
 (*                                                                         *)
 (* The model predicts, after every operation, the value the slot           *)
 (* contributes to the view, whether the call reports an error, whether the *)
@@ -21,6 +25,7 @@ CONSTANTS Mode,        \* "blank" | "direct"
           AVals,       \* values for the scalar leaf (0 = unset)
           SVals,       \* values for the set leaf: subset of {"unset","empty","p","pq"}
           MaxOps,
+          Overlap,              \* TRUE: a SetSource may be issued while the previous SetSource is still inside its source's Value()
           BUG_NoReverse,        \* updates from a wrapped watcher are not reverse-translated (pre-fix behaviour)
           BUG_ReplaceWatcher    \* Blank lets a watching inner source be replaced
 
@@ -41,7 +46,7 @@ NoInner == [kind |-> "none", wrap |-> "none", canReport |-> FALSE]
 
 Rec(op, v, w, via, flag, err, took) ==
   [op |-> op, a |-> v.a, s |-> v.s, wrap |-> w, via |-> via, flag |-> flag,
-   err |-> err, took |-> took, slota |-> slot'.a, slots |-> slot'.s, alive |-> alive', errs |-> errs', broken |-> broken']
+   err |-> err, took |-> took, ovl |-> FALSE, slota |-> slot'.a, slots |-> slot'.s, alive |-> alive', errs |-> errs', broken |-> broken']
 
 Init ==
   /\ inner = IF Mode = "blank" THEN NoInner ELSE [kind |-> "watcher", wrap |-> CHOOSE w \in Wraps : TRUE, canReport |-> TRUE]
@@ -59,38 +64,42 @@ Started == Mode = "blank" \/ hist # <<>>
 UsesAlias(w) == w \in {"alias", "aliasset"}
 ViaOK(w, v, via) == via = "primary" \/ (UsesAlias(w) /\ v.a # 0)
 
-SetStatic(v, w, via) ==          \* Blank.SetSource(non-watching source)
-  /\ Mode = "blank" /\ ViaOK(w, v, via)
+PrevSet == hist # <<>> /\ hist[Len(hist)].op \in {"setstatic", "setwatcher"} /\ ~hist[Len(hist)].ovl
+OvlOK(o) == o => (Overlap /\ PrevSet)
+Ovl(r, o) == [r EXCEPT !.ovl = o]
+
+SetStatic(v, w, via, o) ==          \* Blank.SetSource(non-watching source)
+  /\ Mode = "blank" /\ ViaOK(w, v, via) /\ OvlOK(o)
   /\ UNCHANGED <<alive, errs, broken>>
   /\ IF inner.kind = "watcher" /\ ~BUG_ReplaceWatcher
      THEN /\ UNCHANGED <<inner, slot>>
-          /\ hist' = Append(hist, Rec("setstatic", v, w, via, FALSE, TRUE, FALSE))
+          /\ hist' = Append(hist, Ovl(Rec("setstatic", v, w, via, FALSE, TRUE, FALSE), o))
      ELSE IF ~alive
      THEN /\ inner' = [kind |-> "static", wrap |-> w, canReport |-> FALSE]     \* inner is replaced before the report is attempted
           /\ UNCHANGED slot
-          /\ hist' = Append(hist, Rec("setstatic", v, w, via, FALSE, TRUE, FALSE))
+          /\ hist' = Append(hist, Ovl(Rec("setstatic", v, w, via, FALSE, TRUE, FALSE), o))
      ELSE /\ inner' = [kind |-> "static", wrap |-> w, canReport |-> FALSE]
           /\ slot' = v
-          /\ hist' = Append(hist, Rec("setstatic", v, w, via, FALSE, FALSE, TRUE))
+          /\ hist' = Append(hist, Ovl(Rec("setstatic", v, w, via, FALSE, FALSE, TRUE), o))
 
 SetFailing ==                    \* the new source's Value fails: error, nothing changes
   /\ Mode = "blank"
   /\ UNCHANGED <<inner, slot, alive, errs, broken>>
   /\ hist' = Append(hist, Rec("setfailing", Unset, "none", "primary", FALSE, TRUE, FALSE))
 
-SetWatcher(v, w, via, watchOK) ==   \* Blank.SetSource(watching source)
-  /\ Mode = "blank" /\ ViaOK(w, v, via)
+SetWatcher(v, w, via, watchOK, o) ==   \* Blank.SetSource(watching source)
+  /\ Mode = "blank" /\ ViaOK(w, v, via) /\ OvlOK(o)
   /\ UNCHANGED <<alive, errs, broken>>
   /\ IF inner.kind = "watcher" /\ ~BUG_ReplaceWatcher
      THEN /\ UNCHANGED <<inner, slot>>
-          /\ hist' = Append(hist, Rec("setwatcher", v, w, via, watchOK, TRUE, FALSE))
+          /\ hist' = Append(hist, Ovl(Rec("setwatcher", v, w, via, watchOK, TRUE, FALSE), o))
      ELSE IF ~alive
      THEN /\ inner' = [kind |-> "watcher", wrap |-> w, canReport |-> FALSE]
           /\ UNCHANGED slot
-          /\ hist' = Append(hist, Rec("setwatcher", v, w, via, watchOK, TRUE, FALSE))
+          /\ hist' = Append(hist, Ovl(Rec("setwatcher", v, w, via, watchOK, TRUE, FALSE), o))
      ELSE /\ inner' = [kind |-> "watcher", wrap |-> w, canReport |-> watchOK]
           /\ slot' = v                                      \* the value is reported before Watch is called
-          /\ hist' = Append(hist, Rec("setwatcher", v, w, via, watchOK, ~watchOK, TRUE))
+          /\ hist' = Append(hist, Ovl(Rec("setwatcher", v, w, via, watchOK, ~watchOK, TRUE), o))
 
 InnerReport(v, via, blocking) == \* the watching inner source reports an update through the args it was given
   /\ Started /\ inner.kind = "watcher" /\ inner.canReport /\ alive /\ ~broken
@@ -122,9 +131,9 @@ BlankDone ==                     \* Blank.Done: forwarded only while the Blank s
 Next ==
   /\ Len(hist) < MaxOps
   /\ \/ \E w \in Wraps, v \in Vals : Configure(w, v)
-     \/ \E v \in Vals, w \in Wraps, via \in Vias : SetStatic(v, w, via)
+     \/ \E v \in Vals, w \in Wraps, via \in Vias, o \in BOOLEAN : SetStatic(v, w, via, o)
      \/ SetFailing
-     \/ \E v \in Vals, w \in Wraps, via \in Vias, ok \in BOOLEAN : SetWatcher(v, w, via, ok)
+     \/ \E v \in Vals, w \in Wraps, via \in Vias, ok \in BOOLEAN, o \in BOOLEAN : SetWatcher(v, w, via, ok, o)
      \/ \E v \in Vals, via \in Vias, b \in BOOLEAN : InnerReport(v, via, b)
      \/ InnerError \/ InnerDone \/ BlankDone
 
